@@ -569,6 +569,9 @@ func init() {
 		if o.e == nil {
 			return
 		}
+		// a token generated for a sub-recipe that evaluates to nil (WithSecondaryError(nil, x), Wrap(nil, m), ...)
+		// is not part of the error at all: it occurs nowhere in the full plain rendering
+		full := fmt.Sprintf("%+v", errors.Formattable(o.e))
 		check := func(where string, e error) bool {
 			ev, _ := report.BuildSentryReport(e)
 			var b strings.Builder
@@ -590,6 +593,9 @@ func init() {
 			addDetails(e)
 			all := b.String()
 			for _, t := range o.c.STok {
+				if !strings.Contains(full, t) {
+					continue
+				}
 				o.evals++
 				if !strings.Contains(all, t) {
 					o.fail(fmt.Sprintf("safe token %s is in neither the Sentry report nor GetAllSafeDetails (%s)", t, where), "", "")
